@@ -84,7 +84,7 @@ def make(targets=None, jobs=16, timeout=3000, keep_going=True):
     with open(os.path.join(WORK, 'make.lock'), 'w') as lk:
         fcntl.flock(lk, fcntl.LOCK_EX)
         ensure_makefile()
-        cmd = ['make', '-j%d' % jobs] + (['-k'] if keep_going else []) + (targets or [])
+        cmd = ['make', '-j%d' % jobs, 'TIMECMD=timeout 900'] + (['-k'] if keep_going else []) + (targets or [])
         rc, out, dt = sh(cmd, timeout, cwd=COQ)
         return rc, out, dt
 
